@@ -239,7 +239,8 @@ def replay_write_lists(vals, oid):
     bad = []
     try:
         f = os.path.join(d, "x.meta")
-        for lst in ([20210802.0, 1234567.0], [0.0, 110884048.0], [1.0], [999999.0, 1000000.0, 123456789012345.0], [384.0, 0.0, 1.0]):
+        for lst in ([20210802.0, 1234567.0], [0.0, 110884048.0], [1.0], [999999.0, 1000000.0, 123456789012345.0], [384.0, 0.0, 1.0],
+                    [7.0, 1e19, 36893488147419103232.0], [9223372036854775808.0, 2.0]):          # entries of 20 digits (beyond 64-bit integers) stay numbers too
             md = {"typeThis": "imec", "someList": lst, "nSavedChans": 385.0}
             spikeglx.write_meta_data(md, f)
             back = spikeglx.read_meta_data(f)
@@ -528,3 +529,8 @@ def b_native(B):
         shutil.rmtree(d, ignore_errors=True)
     bad = native_s2v_cases(rng, 60 if B.tier == "quick" else 600)
     B.case("gain_tables", not bad, detail=bad[:5])
+
+
+# ----------------------------------------------------------------------------- contracts of dependencies this property rests on (re-checked here)
+from pyvc.api import depends  # noqa: E402
+depends(PROPERTY, "C11", ["open_int16", "open_cbin"])      # "sample count ... agrees with an independent reading": the count a reader exposes is the file's complete frames, the metadata fields (duration, announced size) never override the file
